@@ -35,8 +35,9 @@ func engineeredIds() []string {
 	return out
 }
 
-// engineeredPopulations: every set of 1..4 of the 16 ids (16+120+560+1820 = 2516).
-func engineeredPopulations() [][]string {
+// engineeredPopulations: every set of 1..maxSize of the 16 ids (maxSize 4: 16+120+560+1820 = 2516;
+// 5: 6884).
+func engineeredPopulations(maxSize int) [][]string {
 	ids := engineeredIds()
 	var out [][]string
 	var rec func(start int, cur []string)
@@ -44,7 +45,7 @@ func engineeredPopulations() [][]string {
 		if len(cur) > 0 {
 			out = append(out, append([]string{}, cur...))
 		}
-		if len(cur) == 4 {
+		if len(cur) == maxSize {
 			return
 		}
 		for i := start; i < len(ids); i++ {
@@ -363,8 +364,8 @@ func checkEngineered(col *collector, c *cache.RepoCache, ids []string, onlyApi, 
 	return
 }
 
-func partB(col *collector, scratch string) partResult {
-	pops := engineeredPopulations()
+func partB(col *collector, scratch string, maxSize int) partResult {
+	pops := engineeredPopulations(maxSize)
 	workers := runtime.NumCPU()
 	if workers > 16 {
 		workers = 16
@@ -422,7 +423,7 @@ func partB(col *collector, scratch string) partResult {
 		}(w)
 	}
 	wg.Wait()
-	r.Extra = map[string]any{"populations": len(pops), "distinct_shared_prefix_shapes": len(shapes)}
+	r.Extra = map[string]any{"populations": len(pops), "max_ids_per_population": maxSize, "distinct_shared_prefix_shapes": len(shapes)}
 	ex := pops[len(pops)-1]
 	r.Samples = []any{map[string]any{"part": "b", "planted_ids": short(ex), "prefixes_tried": prefixesFor(ex, 5)[:12], "apis": engApis}}
 	return r
